@@ -8,6 +8,7 @@ package nsqd
 import (
 	"fmt"
 	stdos "os"
+	"reflect"
 	"sort"
 	"strings"
 	"time"
@@ -25,6 +26,7 @@ type MicroSpec struct {
 	Ops   []string `json:"ops"`
 	Unbuf bool     `json:"unbuf,omitempty"` // consumers negotiate output_buffer_size -1
 	Solo  bool     `json:"solo,omitempty"`  // only c1 subscribes (c2 stays an idle connection)
+	Sync  bool     `json:"sync,omitempty"`  // the disk queues' metadata is synced before the window (sync-timeout has passed)
 	Trace bool     `json:"trace,omitempty"`
 }
 
@@ -38,6 +40,9 @@ func (s MicroSpec) String() string {
 	}
 	if s.Solo {
 		e += "/solo"
+	}
+	if s.Sync {
+		e += "/sync"
 	}
 	return fmt.Sprintf("%s/%s/memq%d/%s", s.State, e, s.MemQ, strings.Join(s.Ops, "|"))
 }
@@ -363,7 +368,11 @@ func (x *microCtx) setup() string {
 	if spec.Eph {
 		x.topic, x.ch = "t#ephemeral", "c#ephemeral"
 	}
-	w, err := NewWorld(FreshDir(), WOpts{MemQ: spec.MemQ, NoLoops: true, MaxBytesPerFile: 4096, Verbose: spec.Trace})
+	w, err := NewWorld(FreshDir(), WOpts{MemQ: spec.MemQ, NoLoops: true, MaxBytesPerFile: 4096, Verbose: spec.Trace, Mod: func(o *Options) {
+		if spec.Sync {
+			o.SyncTimeout = 50 * time.Millisecond
+		}
+	}})
 	if err != nil {
 		return "world: " + err.Error()
 	}
@@ -494,6 +503,9 @@ func (x *microCtx) setup() string {
 	default:
 		return "unknown state " + spec.State
 	}
+	if spec.Sync {
+		w.Sleep(60 * time.Millisecond)
+	}
 	return ""
 }
 
@@ -522,6 +534,7 @@ func RunMicro(spec MicroSpec) vx.Out {
 	var wg vsync.WaitGroup
 	wg.Add(len(spec.Ops))
 	vrt.Window(true)
+	x.watchRecreation()
 	for i, name := range spec.Ops {
 		i, op := i, microOps[name]
 		if op == nil {
@@ -534,6 +547,7 @@ func RunMicro(spec MicroSpec) vx.Out {
 	}
 	wg.Wait()
 	vrt.Quiesce()
+	vrt.OnPoint = nil
 	vrt.Window(false)
 	x.sendsWin = x.totalSends() - x.sendsPre
 	// frames still sitting in a consumer's output buffer are flushed by its output-buffer
@@ -551,6 +565,7 @@ func RunMicro(spec MicroSpec) vx.Out {
 		obs += " | after restart " + fmt.Sprint(x.afterRst)
 		return vx.Out{Obs: obs, Viol: x.viol}
 	}
+	x.checkRecreatedEmpty()
 	// ---- state right after the window
 	if c := x.chanObj(); c != nil && !x.deleted && !x.tdeleted {
 		d := DumpChannel(c)
@@ -753,6 +768,105 @@ func (x *microCtx) checkEphemeralGone() {
 	}
 	if t := x.w.Topic(x.topic); t != nil && len(t.channelMap) == 0 {
 		x.bad("C08 ephemeral topic still there after its last channel went", "topic %s exists with %d channels (exiting=%v) although every connection has been closed", x.topic, len(t.channelMap), t.Exiting())
+	}
+}
+
+// backendDepth reads the depth field of a disk queue without talking to its ioLoop (0 for
+// the disk-less backend of ephemeral objects).
+func backendDepth(b BackendQueue) int64 {
+	v := reflect.ValueOf(b)
+	if v.Kind() != reflect.Ptr || v.IsNil() || v.Elem().Kind() != reflect.Struct {
+		return 0
+	}
+	f := v.Elem().FieldByName("depth")
+	if !f.IsValid() || f.Kind() != reflect.Int64 {
+		return 0
+	}
+	return f.Int()
+}
+
+// watchRecreation (C08, "a later re-creation starts empty"): while the window is open, at
+// every decision point, a topic / channel object that has taken the place of the one the
+// scenario started with holds no more than what was published inside the window - from the
+// moment it exists, not only once everything has settled (a new queue opened on the files
+// of the old one repairs itself noisily after the old one has unlinked them).
+func (x *microCtx) watchRecreation() {
+	del := false
+	pubs := int64(0)
+	for _, o := range x.spec.Ops {
+		del = del || o == "del_topic" || o == "del_ch"
+		if o == "pub" {
+			pubs++
+		}
+	}
+	if !del || x.spec.Eph {
+		return
+	}
+	n := x.w.N
+	oldT := n.topicMap[x.topic]
+	var oldC *Channel
+	if oldT != nil {
+		oldC = oldT.channelMap[x.ch]
+	}
+	reported := false
+	vrt.OnPoint = func() {
+		if reported {
+			return
+		}
+		t := n.topicMap[x.topic]
+		if t == nil {
+			return
+		}
+		if t != oldT {
+			if d := int64(len(t.memoryMsgChan)) + backendDepth(t.backend); d > pubs {
+				reported = true
+				x.bad("C08 topic re-created around its deletion does not start empty", "a new topic %s exists in place of the one being deleted and its queue holds %d message(s) with %d publish(es) in the window: it was opened on what the old topic left", x.topic, d, pubs)
+			}
+		}
+		if c := t.channelMap[x.ch]; c != nil && c != oldC {
+			if d := int64(len(c.memoryMsgChan)) + backendDepth(c.backend); d > pubs {
+				reported = true
+				x.bad("C08 channel re-created around its deletion does not start empty", "a new channel %s:%s exists in place of the one being deleted and its queue holds %d message(s) with %d publish(es) in the window: it was opened on what the old channel left", x.topic, x.ch, d, pubs)
+			}
+		}
+	}
+}
+
+// checkRecreatedEmpty (C08, "a later re-creation starts empty"): the delete was acknowledged
+// inside the window; if a topic / channel of that name exists at the idle point after it, it
+// holds nothing but what was published while the window was open.
+func (x *microCtx) checkRecreatedEmpty() {
+	if !(x.deleted || x.tdeleted) {
+		return
+	}
+	pubs := int64(0)
+	for _, o := range x.spec.Ops {
+		if o == "pub" {
+			pubs++
+		}
+	}
+	t := x.w.Topic(x.topic)
+	if t == nil || t.Exiting() {
+		return
+	}
+	if x.tdeleted {
+		total := t.Depth()
+		t.RLock()
+		for _, c := range t.channelMap {
+			d := DumpChannel(c)
+			total += d.Depth + int64(len(d.InFlight)) + int64(len(d.Deferred))
+		}
+		t.RUnlock()
+		if total > pubs {
+			x.bad("C08 topic re-created after its deletion does not start empty", "topic %s was deleted (200) inside the window and exists again at the idle point after it holding %d message(s) (topic depth %d); %d publish(es) overlapped the window", x.topic, total, t.Depth(), pubs)
+		}
+		return
+	}
+	if c := x.chanObj(); c != nil && !c.Exiting() {
+		d := DumpChannel(c)
+		if total := d.Depth + int64(len(d.InFlight)) + int64(len(d.Deferred)); total > pubs {
+			x.bad("C08 channel re-created after its deletion does not start empty", "channel %s:%s was deleted (200) inside the window and exists again at the idle point after it holding %d message(s); %d publish(es) overlapped the window", x.topic, x.ch, total, pubs)
+		}
 	}
 }
 
